@@ -12,7 +12,7 @@ import (
 
 func TestC03(t *testing.T) {
 	col := ev.New("C03", "rapid: RV64IMA programs of 4-40 instructions built from templates by an independent encoder "+
-		"(ALU/M ops, loads/stores of all widths at offsets -10..139 around a 128-byte initialised data window so accesses "+
+		"(ALU/M ops, loads/stores of all widths at offsets -10..139 around a 96-byte initialised data window so accesses "+
 		"overlap earlier stores partially and straddle image/written/unknown bytes, AMO/lr/sc on aligned slots, forward and "+
 		"backward branches and jal to instruction starts, auipc+jalr incl. bad targets (mid-instruction, odd, outside), "+
 		"CSR ops, fence/ecall/ebreak); lifted by the real front end, run by the real emulator on Overlay(Bytes(image), "+
